@@ -15,8 +15,8 @@ from vf.oracles import same
 
 PROPERTY = "C12"
 WORKERS = {"quick": 16, "thorough": 16}
-CASES = {"quick": 5000, "thorough": 150000}
-TIME = {"quick": 50, "thorough": 1200}
+CASES = {"quick": 5000, "thorough": 30000}
+TIME = {"quick": 50, "thorough": 240}
 TECHNIQUE = "runtime differential monitor: NumPy indexing as oracle over generated index tuples; slice-helper contracts stay attached during the run"
 RULE = (
     "index tuples over shapes ndim 1-4, extents 0-12, arbitrary chunkings: ints (incl. out of range), slices with start/stop in "
